@@ -1,5 +1,185 @@
-"""invocations of the entry points added after the core seven"""
+"""Invocations of the entry points added after the core seven: argument encodings (see Model/History.v
+decode_call), a well-formed positive response each, and the DID / IO configuration they need."""
+
+
+def opt(v):
+    return [1, v] if v is not None else [0, 0]
+
+
+def a_clear_dtc(group=0xFFFFFF, memsel=None):
+    return [group] + opt(memsel)
+
+
+def a_routine(rid, ct, data=None):
+    return [rid, ct, 1 if data is not None else 0], [data or b'']
+
+
+def a_comm(ct, commtype, node=None):
+    """commtype: int or (subnet, normal, nm)"""
+    if isinstance(commtype, tuple):
+        return [ct, 0, commtype[0], int(commtype[1]), int(commtype[2])] + opt(node)
+    return [ct, 1, commtype, 0, 0] + opt(node)
+
+
+def a_memloc(addr, size, af=None, sf=None):
+    return [addr, size] + opt(af) + opt(sf)
+
+
+def a_updown(upload, addr, size, af=None, sf=None, dfi=None):
+    return [1 if upload else 0] + a_memloc(addr, size, af, sf) + ([1, dfi[0], dfi[1]] if dfi else [0, 0, 0])
+
+
+def a_define_bydid(did, entries):
+    return [did, 1, len(entries)] + [x for e in entries for x in e]
+
+
+def a_define_bymem(did, entries):
+    out = [did, 2, len(entries)]
+    for e in entries:
+        out += a_memloc(*e)
+    return out
+
+
+def a_dids(l):
+    return [len(l)] + list(l)
+
+
+def a_io(did, cp=None, values=None, masks=None):
+    """masks: None | bool | [(idx, bool)]"""
+    out = [did] + opt(cp) + [1 if values is not None else 0]
+    if masks is None:
+        out += [0, 0]
+    elif isinstance(masks, bool):
+        out += [1, int(masks)]
+    else:
+        out += [2, len(masks)] + [x for i, b in masks for x in (i, int(b))]
+    return out, [values or b'']
+
+
+def a_file(moop, path, dfi=None, fs=None):
+    """fs: None | int | (u, c, w)"""
+    out = [moop] + ([1, dfi[0], dfi[1]] if dfi else [0, 0, 0])
+    if fs is None:
+        out += [0, 0] + [0, 0] * 3
+    elif isinstance(fs, int):
+        out += [1, fs] + [0, 0] * 3
+    else:
+        out += [2, 0] + opt(fs[0]) + opt(fs[1]) + opt(fs[2])
+    return out, [path if isinstance(path, bytes) else path.encode('latin-1')]
+
+
+def a_auth(task, cfg=None, evalid=None, cert=None, chal=None, algo=None, certdata=None, pown=None, eph=None, add=None):
+    blobs = [cert, chal, algo, certdata, pown, eph, add]
+    return [task] + opt(cfg) + opt(evalid) + [1 if x is not None else 0 for x in blobs], [x or b'' for x in blobs]
+
+
+def a_dtc(sub, status=None, severity=None, sev_obj=False, dtc_class=None, dtc=None, snap=None, ext=None, memsel=None, fgid=None, ext_size=None):
+    return [sub] + opt(status) + opt(severity) + [int(sev_obj)] + opt(dtc_class) + opt(dtc) + opt(snap) + opt(ext) + opt(memsel) + opt(fgid) + opt(ext_size)
+
+
+DIDS = [(0xF190, 3), (0x0102, 1), (0x1234, 2), (0x0304, 0), (0xFFFF, -1)]
+IOS = [(0x0132, 2, 1, 1, [1, 2, 0x80]), (0x0456, 1, 1, -1, [0x0100, 0x01]), (0x0155, 2, 0, -1, []), (-1, 1, 0, 2, [])]
+A16 = bytes(range(16))
 
 
 def invocations(Inv):
-    return []
+    L = []
+
+    def add(name, callid, args, blobs, sid, positive, has_sub=True, cfg=None, dids=None, ios=None):
+        i = Inv(name, callid, args, blobs, sid, positive, has_sub, cfg)
+        i.dids = dids if dids is not None else DIDS
+        i.ios = ios if ios is not None else IOS
+        L.append(i)
+
+    add('clear_dtc', 8, a_clear_dtc(0x123456), [], 0x14, b'\x54', has_sub=False)
+    add('clear_dtc(memory_selection)', 8, a_clear_dtc(0xFFFFFF, 3), [], 0x14, b'\x54', has_sub=False)
+    a, b = a_routine(0x1234, 1, b'\x99')
+    add('routine_control', 9, a, b, 0x31, b'\x71\x01\x12\x34\xaa\xbb')
+    add('access_timing_parameter(read)', 10, [1, 0], [b''], 0x83, b'\xc3\x01\x11\x22')
+    add('access_timing_parameter(set)', 10, [4, 1], [b'\x01\x02'], 0x83, b'\xc3\x04')
+    add('communication_control(obj)', 11, a_comm(0, (3, True, False)), [], 0x28, b'\x68\x00')
+    add('communication_control(int,node)', 11, a_comm(4, 0x13, 0x0102), [], 0x28, b'\x68\x04')
+    add('transfer_data', 13, [0x55, 1], [b'\x01\x02\x03'], 0x36, b'\x76\x55\x09', has_sub=False)
+    add('request_transfer_exit', 14, [1], [b'\x07'], 0x37, b'\x77\x08', has_sub=False)
+    add('request_transfer_exit(no data)', 14, [0], [b''], 0x37, b'\x77', has_sub=False)
+    add('link_control(fixed)', 15, [1, 1, 250000, 3], [], 0x87, b'\xc7\x01')
+    add('link_control(specific)', 15, [2, 1, 0x123456, 1], [], 0x87, b'\xc7\x02')
+    add('link_control(transition)', 15, [3, 0, 0, 0], [], 0x87, b'\xc7\x03')
+    add('control_dtc_setting', 16, [2, 1], [b'\x01'], 0x85, b'\xc5\x02')
+    add('read_memory_by_address', 17, a_memloc(0x1234, 4), [], 0x23, b'\x63\x01\x02\x03\x04', has_sub=False)
+    add('read_memory_by_address(formats)', 17, a_memloc(0x12, 2, 32, 16), [], 0x23, b'\x63\x01\x02', has_sub=False)
+    add('write_memory_by_address', 18, a_memloc(0x1234, 2), [b'\xaa\xbb'], 0x3D, b'\x7d\x12\x12\x34\x02', has_sub=False)
+    add('write_memory_by_address(48-bit)', 18, a_memloc(0x010203040506, 1, 48, 8), [b'\xaa'], 0x3D, b'\x7d\x16\x01\x02\x03\x04\x05\x06\x01', has_sub=False)
+    add('request_download', 19, a_updown(False, 0x1234, 0xFF, None, None, (5, 2)), [], 0x34, b'\x74\x20\x0a\xbc', has_sub=False)
+    add('request_upload', 19, a_updown(True, 0x1234, 0xFF), [], 0x35, b'\x75\x40\x01\x02\x03\x04', has_sub=False)
+    add('dynamically_define_did(by did)', 20, a_define_bydid(0xF300, [(0x1234, 1, 2), (0x5678, 3, 4)]), [], 0x2C, b'\x6c\x01\xf3\x00')
+    add('dynamically_define_did(by memory)', 20, a_define_bymem(0xF301, [(0x1122, 4, 16, 8), (0x3344, 8, 16, 8)]), [], 0x2C, b'\x6c\x02\xf3\x01')
+    add('clear_dynamically_defined_did', 21, opt(0xF300), [], 0x2C, b'\x6c\x03\xf3\x00')
+    add('clear_all_dynamically_defined_did', 21, opt(None), [], 0x2C, b'\x6c\x03')
+    add('read_data_by_identifier', 22, a_dids([0xF190, 0x0102]), [], 0x22, b'\x62\xf1\x90\x41\x42\x43\x01\x02\x99', has_sub=False)
+    add('read_data_by_identifier(read-all last)', 22, a_dids([0x1234, 0xFFFF]), [], 0x22, b'\x62\x12\x34\x01\x02\xff\xff\x05\x06\x07', has_sub=False)
+    add('read_data_by_identifier_first', 23, a_dids([0x0102, 0x1234]), [], 0x22, b'\x62\x01\x02\x77\x12\x34\x88\x99', has_sub=False)
+    add('test_data_identifier', 24, a_dids([0x0001, 0x0002]), [], 0x22, b'\x62\x00\x01\x55', has_sub=False)
+    add('write_data_by_identifier', 25, [0xF190], [b'ABC'], 0x2E, b'\x6e\xf1\x90', has_sub=False)
+    a, b = a_io(0x0132, 3, b'\x11\x22', [(0, True), (2, True)])
+    add('io_control(values, masks)', 26, a, b, 0x2F, b'\x6f\x01\x32\x03\x07\x08', has_sub=False)
+    a, b = a_io(0x0155)
+    add('io_control(no control param)', 26, a, b, 0x2F, b'\x6f\x01\x55\x07\x08', has_sub=False)
+    a, b = a_io(0x0132, 0, b'\x11\x22', True)
+    add('io_control(bool mask)', 26, a, b, 0x2F, b'\x6f\x01\x32\x00\x07\x08', has_sub=False)
+    a, b = a_file(1, b'/a/b.bin', (1, 2), 0x1234)
+    add('add_file', 27, a, b, 0x38, b'\x78\x01\x02\x10\x00\x12', has_sub=False)
+    a, b = a_file(2, b'x')
+    add('delete_file', 27, a, b, 0x38, b'\x78\x02', has_sub=False)
+    a, b = a_file(4, b'f.txt', None)
+    add('read_file', 27, a, b, 0x38, b'\x78\x04\x01\x80\x00\x00\x02\x01\x00\x00\x80', has_sub=False)
+    a, b = a_file(5, b'/dir')
+    add('read_dir', 27, a, b, 0x38, b'\x78\x05\x02\x01\x00\x00\x00\x01\x20', has_sub=False)
+    a, b = a_file(6, b'r', None, (100, 50, None))
+    add('resume_file', 27, a, b, 0x38, b'\x78\x06\x01\x40\x00' + b'\x00' * 7 + b'\x2a', has_sub=False)
+    a, b = a_auth(0)
+    add('deauthenticate', 28, a, b, 0x29, b'\x69\x00\x10')
+    a, b = a_auth(1, cfg=2, cert=b'\x01\x02', chal=b'\x03')
+    add('verify_certificate_unidirectional', 28, a, b, 0x29, b'\x69\x01\x11\x00\x02\xaa\xbb\x00\x01\xcc')
+    a, b = a_auth(2, cfg=2, cert=b'\x01\x02', chal=b'\x03')
+    add('verify_certificate_bidirectional', 28, a, b, 0x29, b'\x69\x02\x11\x00\x01\xaa\x00\x01\xbb\x00\x00\x00\x02\xcc\xdd')
+    a, b = a_auth(3, pown=b'\x01', eph=b'\x02\x03')
+    add('proof_of_ownership', 28, a, b, 0x29, b'\x69\x03\x12\x00\x02\xaa\xbb')
+    a, b = a_auth(4, evalid=0x1234, certdata=b'\x09')
+    add('transmit_certificate', 28, a, b, 0x29, b'\x69\x04\x13')
+    a, b = a_auth(5, cfg=0, algo=A16)
+    add('request_challenge_for_authentication', 28, a, b, 0x29, b'\x69\x05\x00' + A16 + b'\x00\x01\xaa\x00\x00')
+    a, b = a_auth(6, algo=A16, pown=b'\x01', chal=b'\x02', add=b'\x03')
+    add('verify_proof_of_ownership_unidirectional', 28, a, b, 0x29, b'\x69\x06\x00' + A16 + b'\x00\x01\xaa')
+    a, b = a_auth(7, algo=A16, pown=b'\x01', chal=b'\x02')
+    add('verify_proof_of_ownership_bidirectional', 28, a, b, 0x29, b'\x69\x07\x00' + A16 + b'\x00\x01\xaa\x00\x02\xbb\xcc')
+    a, b = a_auth(8)
+    add('authentication_configuration', 28, a, b, 0x29, b'\x69\x08\x02')
+    # ReadDTCInformation, one invocation per request/response shape
+    rec4 = b'\x12\x34\x56\x2f' + b'\x65\x43\x21\x01'
+    add('get_dtc_by_status_mask', 29, a_dtc(2, status=0x5A), [], 0x19, b'\x59\x02\xff' + rec4)
+    add('get_user_defined_memory_dtc_by_status_mask', 29, a_dtc(0x17, status=0x5A, memsel=7), [], 0x19, b'\x59\x17\x07\xff' + rec4)
+    add('get_supported_dtc', 29, a_dtc(0x0A), [], 0x19, b'\x59\x0a\xff' + rec4)
+    add('get_dtc_by_status_severity_mask', 29, a_dtc(8, status=1, severity=0xC0), [], 0x19, b'\x59\x08\xff\x80\x99\x12\x34\x56\x20')
+    add('get_dtc_severity', 29, a_dtc(9, dtc=0x123456), [], 0x19, b'\x59\x09\xff\x80\x99\x12\x34\x56\x20')
+    add('get_number_of_dtc_by_status_mask', 29, a_dtc(1, status=0x5A), [], 0x19, b'\x59\x01\xfb\x01\x12\x34')
+    add('get_number_of_dtc_by_status_severity_mask', 29, a_dtc(7, status=1, severity=0x20, sev_obj=True), [], 0x19, b'\x59\x07\xfb\x01\x00\x02')
+    add('get_dtc_fault_counter', 29, a_dtc(0x14), [], 0x19, b'\x59\x14\x12\x34\x56\x01\x12\x34\x57\x7e')
+    add('get_dtc_snapshot_identification', 29, a_dtc(3), [], 0x19, b'\x59\x03\x12\x34\x56\x01\x12\x34\x56\x02\x78\x9a\xbc\x03')
+    add('get_dtc_snapshot_by_dtc_number', 29, a_dtc(4, dtc=0x123456, snap=2), [], 0x19,
+        b'\x59\x04\x12\x34\x56\x24\x02\x02\x01\x02\x77\x12\x34\x88\x99')
+    add('get_user_defined_dtc_snapshot_by_dtc_number', 29, a_dtc(0x18, dtc=0x123456, snap=0xFF, memsel=1), [], 0x19,
+        b'\x59\x18\x01\x12\x34\x56\x24\x02\x01\x01\x02\x77\x03\x01\x12\x34\x88\x99')
+    add('get_dtc_snapshot_by_record_number', 29, a_dtc(5, snap=2), [], 0x19, b'\x59\x05\x02\x12\x34\x56\x24\x01\x01\x02\x77')
+    add('get_dtc_extended_data_by_dtc_number', 29, a_dtc(6, dtc=0x123456, ext=0x99, ext_size=3), [], 0x19,
+        b'\x59\x06\x12\x34\x56\x20\x99\x01\x02\x03')
+    add('get_mirrormemory_dtc_extended_data_by_dtc_number', 29, a_dtc(0x10, dtc=0x123456, ext=0xFF), [], 0x19,
+        b'\x59\x10\x12\x34\x56\x20\x01\x01\x02\x02\x03\x04', cfg={14: 2})
+    add('get_user_defined_dtc_extended_data_by_dtc_number', 29, a_dtc(0x19, dtc=0x123456, ext=1, memsel=4, ext_size=1), [], 0x19,
+        b'\x59\x19\x04\x12\x34\x56\x20\x01\xab')
+    add('get_dtc_extended_data_by_record_number', 29, a_dtc(0x16, ext=0x12, ext_size=2), [], 0x19,
+        b'\x59\x16\x12\x12\x34\x56\x20\x01\x02\x12\x34\x57\x21\x03\x04')
+    add('get_wwh_obd_dtc_by_status_mask', 29, a_dtc(0x42, status=0x08, severity=0x20, dtc_class=0x04, fgid=0x33), [], 0x19,
+        b'\x59\x42\x33\xff\xe0\x04\x20\x12\x34\x56\x08')
+    add('get_wwh_obd_dtc_with_permanent_status', 29, a_dtc(0x55, fgid=0x33), [], 0x19, b'\x59\x55\x33\xff\x04\x20\x12\x34\x56\x08')
+    return L
